@@ -18,7 +18,7 @@ Definition bytes := list N.
 
 Inductive err :=
 | ENotEnough | EBool | EMin | EMax | EOrder | EDup | EDupKey | ETypeDup | EMustOccur | ETypeMismatch
-| EIface | EUtf8 | ELenInvalid | EU256 | EInvalid | ENil | EUnbounded | EOther.
+| EIface | EUtf8 | ELenInvalid | EU256 | EInvalid | ENil | EUnbounded | EValidator | EOther.
 
 Inductive res (A : Type) := Ok (a : A) | Err (e : err) | Panic.
 Arguments Ok {A} a.
@@ -106,6 +106,10 @@ Record arules := mkAR {
 
 Inductive fkind := FPlain | FOpt | FEmb | FEmbPtr.
 
+(* wire format of a type with a custom codec (serix.Serializable / Deserializable): a fixed number of payload bytes, or a
+   payload behind a one-byte length *)
+Inductive cfmt := CFix (n : nat) | CLen8.
+
 Inductive schema :=
 | SBool
 | SInt (sg : bool) (w : width)                 (* floats travel as their bit pattern: SInt false W4/W8 *)
@@ -120,6 +124,10 @@ Inductive schema :=
 | SArr (n : nat) (l : lpt) (r : arules) (e : schema)   (* [n]T, T not byte *)
 | SMap (l : lpt) (r : arules) (k v : schema)
 | SIface (d : tyden) (al : alts)
+| SCustom (ty : option tycode) (f : cfmt) (p : option (bytes -> bool))
+    (* a type that encodes / decodes itself (API.encode / API.decode call its Encode() / Decode(b) instead of walking it),
+       with its registered object code and its registered syntactic validator: [p payload = true] iff the validator
+       accepts the value. The validator is an arbitrary predicate: every theorem holds for all of them. *)
 with fields := FNil | FCons (k : fkind) (s : schema) (r : fields)
 with alts := ANil | ACons (c : N) (s : schema) (r : alts).
 
@@ -319,6 +327,7 @@ Fixpoint min_size (s : schema) : nat :=
   | SStruct ty fs => (length (code_bytes ty) + min_size_fields fs)
   | SSlice l _ _ | SArr _ l _ _ | SMap l _ _ _ => lpt_size l
   | SIface d _ => match d with Den8 => 1 | Den32 => 4 end
+  | SCustom ty f _ => (length (code_bytes ty) + match f with CFix n => n | CLen8 => 1 end)
   end%nat
 with min_size_fields (fs : fields) : nat :=
   match fs with
@@ -338,6 +347,7 @@ Fixpoint elem_code (s : schema) (v : value) : option N :=
   match s, v with
   | SStruct (Some t) _, _ => Some (code_val t)
   | SByteArr _ (Some t), _ => Some (code_val t)
+  | SCustom (Some t) _ _, _ => Some (code_val t)
   | SPtr _, VNil => None              (* nil element: checkArrayMustOccur reports an error *)
   | SPtr s', _ => elem_code s' v
   | SIface _ _, VIface c _ => Some c
@@ -379,6 +389,31 @@ Fixpoint mapM {A B} (f : A -> res B) (l : list A) : res (list B) :=
   | [] => Ok []
   | x :: r => let* y := f x in let* ys := mapM f r in Ok (y :: ys)
   end.
+
+Definition take (n : nat) (b : bytes) : res bytes :=
+  if (length b <? n)%nat then Err ENotEnough else Ok (firstn n b).
+
+(* ---------- custom codecs (the hand-written zoo of the harness follows these two formats) ---------- *)
+Definition valid_ok (p : option (bytes -> bool)) (bs : bytes) : bool :=
+  match p with Some q => q bs | None => true end.
+Definition custom_enc (f : cfmt) (bs : bytes) : res bytes :=
+  match f with
+  | CFix n => if Nat.eqb (length bs) n then Ok bs else Err EOther
+  | CLen8 => if (length bs <? 256)%nat then Ok (N.of_nat (length bs) :: bs) else Err EOther
+  end.
+Definition custom_dec (f : cfmt) (b : bytes) : res (bytes * nat) :=
+  match f with
+  | CFix n => let* bs := take n b in Ok (bs, n)
+  | CLen8 => match b with
+             | [] => Err ENotEnough
+             | l :: r => let* bs := take (N.to_nat l) r in Ok (bs, S (N.to_nat l))
+             end
+  end.
+(* the validators of the zoo *)
+Definition pred_lt2 (bs : bytes) : bool := match bs with [a; b] => a <? b | _ => false end.
+Definition pred_sum_even (bs : bytes) : bool := N.even (fold_right N.add 0 bs).
+Definition pred_even_len (bs : bytes) : bool := Nat.even (length bs).
+Definition pred_first_nonzero (bs : bytes) : bool := match bs with 0 :: _ => false | _ => true end.
 
 (* ---------- encode ---------- *)
 
@@ -468,6 +503,15 @@ Fixpoint encode (val : bool) (direct : bool) (s : schema) (v : value) {struct s}
       | VNil => Err EOther
       | _ => Err EOther
       end
+  | SCustom ty f p =>
+      (* API.encode: the syntactic validator first (only under validation), then the object code, then obj.Encode() *)
+      match v with
+      | VBytes bs =>
+          if val && negb (valid_ok p bs) then Err EValidator else
+          let* body := custom_enc f bs in
+          Ok (code_bytes ty ++ body)
+      | _ => Err EOther
+      end
   end
 with encode_fields (val : bool) (fs : fields) (vs : list value) {struct fs} : res bytes :=
   match fs, vs with
@@ -504,9 +548,6 @@ with encode_alt (val : bool) (c : N) (al : alts) (v : value) {struct al} : res b
   end.
 
 (* ---------- decode ---------- *)
-
-Definition take (n : nat) (b : bytes) : res bytes :=
-  if (length b <? n)%nat then Err ENotEnough else Ok (firstn n b).
 
 Definition peek_code (d : tyden) (b : bytes) : res N :=
   match d with
@@ -581,6 +622,11 @@ Fixpoint decode (val : bool) (tot : nat) (s : schema) (b : bytes) {struct s} : r
       let* c := peek_code d b in
       let* (v, n) := decode_alt val tot c al b in
       Ok (VIface c v, n)
+  | SCustom ty f p =>
+      (* API.decode: the object code, obj.Decode(rest), then - under validation, on BOTH paths - the syntactic validator *)
+      let* c := check_code ty b in
+      let* (bs, n) := custom_dec f (skipn c b) in
+      if val && negb (valid_ok p bs) then Err EValidator else Ok (VBytes bs, (c + n)%nat)
   end
 with decode_fields (val : bool) (tot : nat) (fs : fields) (b : bytes) {struct fs} : res (list value * nat) :=
   match fs with
